@@ -94,11 +94,14 @@ def u_limits(c):
     import tornado.httputil as U
     k = c.choose("parts", [0, 1, 2, 3, 4])
     dm = c.choose("max_parts-minus-parts", [-1, 0, 1])
-    pad = c.choose("header-padding", [0, 7, 40])
+    pad = c.choose("header-padding", [0, 7, 40, "non-ascii"])
     dh = c.choose("max_part_header_size-minus-header-size", [-1, 0, 1])
     if k + dm < 0:
         c.end_path() if c.symbolic else c.assume(False)
-    hdr = b'Content-Disposition: form-data; name="f"' + (b"; x=" + b"p" * pad if pad else b"")
+    if pad == "non-ascii":
+        hdr = b'Content-Disposition: form-data; name="f"; x="' + "\u00e9\u540d".encode("utf-8") * 6 + b'"'      # bytes > characters
+    else:
+        hdr = b'Content-Disposition: form-data; name="f"' + (b"; x=" + b"p" * pad if pad else b"")
     body = mp_body(b"BB", [(hdr, b"v%d" % i) for i in range(k)])
     cfg = U.ParseMultipartConfig()
     cfg.max_parts = k + dm
@@ -129,7 +132,7 @@ def standin(tier, seed):
     def fail(what, **h):
         if len(failures) < 5:
             failures.append({"what": what, "history": {k: (repr(v)[:200]) for k, v in h.items()}})
-    NAMES = ["a", "field", "a b", 'q"uote', "back\\slash", "semi;colon", "eq=ual", "é", "名", "x" * 50, "amp&", "per%cent", "plus+", "tab\there", "'single'", "name*", "nul\x00l", ",comma", "sp ace ", "[]", "a=b;c"]
+    NAMES = ["a", "field", "a b", 'q"uote', "back\\slash", "semi;colon", "eq=ual", "é", "名", "x" * 50, "amp&", "per%cent", "plus+", "tab\there", "'single'", "name*", "nul\x00l", ",comma", "sp ace ", "[]", "a=b;c", "trail\\", 'q"\\']
     FILENAMES = [None, "f.txt", 'we"ird.txt', "päth/file", "a;b.txt", "back\\slash.bin", "x" * 80, "%41.txt", "file name.txt", "名前.dat"]
     CONTENTS = [b"", b"v", b"line1\r\nline2", b"\x00\xff\xfe", b"--", b"--XYZ", b"\r\n", b"\r\n\r\n", b"a=b&c=d", b"x" * 3000, b"ends with CRLF\r\n", b"--BOUNDAR", b"Content-Disposition: form-data"]
     BOUND = b"BOUNDARY7f3a"
@@ -145,10 +148,22 @@ def standin(tier, seed):
             d = "form-data; name=" + q_quoted(name)
             if filename is not None:
                 d += "; filename=" + q_quoted(filename)
-        else:
+        elif style == "rfc2231":
             d = "form-data; name*=" + q_2231(name)
             if filename is not None:
                 d += "; filename*=" + q_2231(filename)
+        else:
+            # RFC 2231 continuations: the value in two segments - plain quoted segments when the text allows it,
+            # extended (charset'lang'percent-encoded) segments otherwise
+            def cont(key, val):
+                k = max(1, len(val) // 2)
+                a, b = val[:k], val[k:]
+                if val.isascii() and not any(ch in val for ch in '"\\%\x00\t') and val:
+                    return "%s*0=%s; %s*1=%s" % (key, q_quoted(a), key, q_quoted(b))
+                return "%s*0*=utf-8''%s; %s*1*=%s" % (key, urllib.parse.quote(a, safe=""), key, urllib.parse.quote(b, safe=""))
+            d = "form-data; " + cont("name", name)
+            if filename is not None:
+                d += "; " + cont("filename", filename)
         return d
 
     def encode_multipart(items, style, boundary=BOUND):
@@ -177,7 +192,7 @@ def standin(tier, seed):
             name = rng.choice(NAMES)
             fn = rng.choice(FILENAMES) if rng.random() < 0.5 else None
             items.append((name, fn, rng.choice(CONTENTS), rng.choice([None, "text/plain", "application/x-thing; a=b"]) if fn else None))
-        for style in ("quoted", "rfc2231"):
+        for style in ("quoted", "rfc2231", "continuation"):
             its = [it for it in items if not (style == "quoted" and ("\x00" in it[0] or "\t" in it[0]))]
             body = encode_multipart(its, style)
             ctype = "multipart/form-data; boundary=" + (BOUND.decode() if i % 3 else '"' + BOUND.decode() + '"')
@@ -236,7 +251,8 @@ def standin(tier, seed):
                b"--" + BOUND + b"\r\nContent-Disposition: form-data; name=\"\xff\"\r\n\r\nv\r\n--" + BOUND + b"--", b"--" + BOUND + b"\r\nContent-Disposition\r\n\r\nv\r\n--" + BOUND + b"--",
                b"--" + BOUND + b"\r\n continuation\r\n\r\nv\r\n--" + BOUND + b"--", b"--" + BOUND + b"\r\nContent-Disposition: form-data; name*=utf-8''%ff%fe\r\n\r\nv\r\n--" + BOUND + b"--",
                b"--" + BOUND + b"\r\nContent-Disposition: form-data; name*=nosuchcharset''x\r\n\r\nv\r\n--" + BOUND + b"--",
-               b"--" + BOUND + b"\r\nContent-Disposition: form-data; name*0*=utf-8''a; name*2=b\r\n\r\nv\r\n--" + BOUND + b"--"]
+               b"--" + BOUND + b"\r\nContent-Disposition: form-data; name*0*=utf-8''a; name*2=b\r\n\r\nv\r\n--" + BOUND + b"--",
+               b"--" + BOUND + b"\r\nContent-Disposition: form-data; name*" + b"9" * 5000 + b"=x\r\n\r\nv\r\n--" + BOUND + b"--"]
     cases = [("multipart/form-data; boundary=" + BOUND.decode(), g) for g in garbage]
     for ctype, body in pool:
         for _ in range(12 if tier == "quick" else 40):
